@@ -8,7 +8,9 @@ import (
 	"go/token"
 	"go/types"
 	"os"
+	"regexp"
 	"sort"
+	"strconv"
 	"strings"
 
 	"golang.org/x/tools/go/packages"
@@ -31,21 +33,22 @@ type LoadConfig struct {
 }
 
 type Prog struct {
-	Inlined  []string // helpers (new relative to the pinned tree) inlined by the normaliser before analysis
-	NotInl   []string // new helpers left as they are (shape not supported)
-	Cfg      LoadConfig
-	Fset     *token.FileSet
-	Pkgs     map[string]*packages.Package // by import path (production + testcases)
-	AllPkgs  []*packages.Package          // everything loaded incl. dependencies
-	SSA      *ssa.Program
-	SPkgs    map[string]*ssa.Package // repo ssa packages by import path
-	Funcs    []*ssa.Function         // A2: repo production functions incl. anonymous
-	AllFuncs []*ssa.Function         // repo + dependencies with bodies (for A8)
-	funcSet  map[*ssa.Function]bool
-	symMemo  map[ssa.Value]*Sym
-	parentMC map[*ssa.Function]*ssa.MakeClosure
-	cg       *callGraph
-	domMemo  map[*ssa.Function]bool
+	containsMemo map[*ssa.Function]int
+	Inlined      []string // helpers (new relative to the pinned tree) inlined by the normaliser before analysis
+	NotInl       []string // new helpers left as they are (shape not supported)
+	Cfg          LoadConfig
+	Fset         *token.FileSet
+	Pkgs         map[string]*packages.Package // by import path (production + testcases)
+	AllPkgs      []*packages.Package          // everything loaded incl. dependencies
+	SSA          *ssa.Program
+	SPkgs        map[string]*ssa.Package // repo ssa packages by import path
+	Funcs        []*ssa.Function         // A2: repo production functions incl. anonymous
+	AllFuncs     []*ssa.Function         // repo + dependencies with bodies (for A8)
+	funcSet      map[*ssa.Function]bool
+	symMemo      map[ssa.Value]*Sym
+	parentMC     map[*ssa.Function]*ssa.MakeClosure
+	cg           *callGraph
+	domMemo      map[*ssa.Function]bool
 }
 
 func isProdPath(p string) bool {
@@ -514,6 +517,13 @@ func Load(cfg LoadConfig) (*Prog, error) {
 		cfg2.Overlay[k] = v
 	}
 	p2, err2 := loadOnce(cfg2)
+	for round := 0; err2 != nil && round < 3; round++ {
+		// imports that only the moved helpers used (or that a second helper's expansion dropped again) go
+		if !dropUnusedImports(cfg2.Overlay, err2.Error()) {
+			break
+		}
+		p2, err2 = loadOnce(cfg2)
+	}
 	if err2 != nil {
 		if os.Getenv("TABLELINT_DEBUG_NORMALISE") != "" {
 			fmt.Fprintln(os.Stderr, "normalise: second load failed:", err2)
@@ -545,4 +555,30 @@ func funcSig(o *types.Func) string {
 		parts = append(parts, typeShort(sig.Results().At(i).Type()))
 	}
 	return strings.Join(parts, ",")
+}
+
+var unusedImportRe = regexp.MustCompile(`(?m)^\s*(\S+\.go):(\d+):\d+: "([^"]+)" imported (?:as \S+ )?and not used`)
+
+// dropUnusedImports blanks the import lines a type-check error names as unused, in the overlay copies only.
+func dropUnusedImports(overlay map[string][]byte, errText string) bool {
+	changed := false
+	for _, m := range unusedImportRe.FindAllStringSubmatch(errText, -1) {
+		src, ok := overlay[m[1]]
+		if !ok {
+			continue
+		}
+		ln, _ := strconv.Atoi(m[2])
+		lines := strings.Split(string(src), "\n")
+		if ln < 1 || ln > len(lines) || !strings.Contains(lines[ln-1], `"`+m[3]+`"`) {
+			continue
+		}
+		if strings.HasPrefix(strings.TrimSpace(lines[ln-1]), "import ") {
+			lines[ln-1] = ""
+		} else {
+			lines[ln-1] = ""
+		}
+		overlay[m[1]] = []byte(strings.Join(lines, "\n"))
+		changed = true
+	}
+	return changed
 }
